@@ -9,7 +9,7 @@
    [ack_in_hand s] = the acknowledgement the write loop is holding, if any; [ackq s] = the queue. *)
 From Coq Require Import NArith List Bool Sorted.
 From LLRP Require Import Client.Types Client.Model Client.InvAck Client.C07Proofs.
-From LLRP Require Client.C07Liveness.
+From LLRP Require Client.C07Liveness Client.DeviceHandler Client.DeviceHandlerProofs.
 Import ListNotations.
 Open Scope N_scope.
 
@@ -147,3 +147,54 @@ Example C07_example_backlog :
   acked (run cfg11 (burst ++ drain6)) = [11; 12; 13; 14; 15; 16] /\
   map (fun o => f_ver (o_frame o)) (out (run cfg11 (burst ++ drain6))) = [2; 2; 2; 2; 2; 2; 2].
 Proof. vm_compute. repeat split; reflexivity. Qed.
+
+(* ---- 9.-11. "Acknowledgement does not wait for application traffic" — the device service's handlers ----
+   In the client LTS a handler runs to completion inside the RFrame event: that registered handlers RETURN is a premise
+   of everything above (the library's own ackHandler returns by construction: non-blocking select). The device service
+   (internal/driver/device.go) registers handlers for tag reports and reader events which publish to EdgeX through the
+   asynchronous-values channel; its consumer is not under the service's control. Client/DeviceHandler.v models that
+   corner — read loop, handler, channel of capacity cap (0 = unbuffered), consumer — in the two shapes forwarding can
+   take. As the code does it (the handler hands the value to a goroutine of its own, which does the channel send):
+
+   9.  the read loop is at its head after every step of every schedule — it never waits for the channel; *)
+Theorem C07_device_handlers_never_hold_the_read_loop : forall cap evs s,
+  DeviceHandler.rloop s = DeviceHandler.RLHead ->
+  DeviceHandler.rloop (DeviceHandler.drun false cap evs s) = DeviceHandler.RLHead.
+Proof. exact DeviceHandlerProofs.spawn_read_loop_never_blocks. Qed.
+Print Assumptions C07_device_handlers_never_hold_the_read_loop.
+
+(* 10. for every channel capacity, every inbound sequence of reports / events and keep-alives, and every schedule that
+       lets the read loop take its |items| steps — whatever forwarding and consuming events are interleaved with them,
+       in particular NO consuming event at all (EdgeX stalled for good) — exactly the keep-alive ids reach the
+       acknowledgement queue, in order (from there on theorems 1-8 apply); *)
+Theorem C07_device_acks_independent_of_application : forall cap items evs,
+  filter DeviceHandler.is_read evs = repeat DeviceHandler.DRead (length items) ->
+  DeviceHandler.acks (DeviceHandler.drun false cap evs (DeviceHandler.dinit items)) = DeviceHandler.ka_ids items.
+Proof. exact DeviceHandlerProofs.spawn_keepalives_reach_ack_queue. Qed.
+Print Assumptions C07_device_acks_independent_of_application.
+
+(* 11. whereas a handler that does the channel send itself makes acknowledgement wait for the application: capacity 1,
+       two tag reports and then keep-alive 7 — in EVERY schedule without a consuming event the keep-alive is never even
+       read. The clause is FALSE of that shape. Which shape the code has is decided on the running device service: check
+       scenarios "device-service" (harness/driver/c07_test.go: a real LLRPDevice from Driver.NewLLRPDevice, consumer of
+       the channel stalled / slow, more reports than the channel holds, keep-alives in between). *)
+Theorem C07_inline_forwarding_starves_keepalive_refuted : forall evs,
+  forallb (fun e => negb (DeviceHandler.is_consume e)) evs = true ->
+  DeviceHandler.acks (DeviceHandler.drun true 1 evs (DeviceHandler.dinit DeviceHandlerProofs.starving)) = [] /\
+  DeviceHandler.ka_ids DeviceHandlerProofs.starving = [7].
+Proof. exact DeviceHandlerProofs.inline_starves_keepalive. Qed.
+Print Assumptions C07_inline_forwarding_starves_keepalive_refuted.
+
+(* non-vacuity of 10: unbuffered channel, nobody consumes; report, keep-alive 1, two reports, keep-alive 2, with a
+   (futile) forwarding attempt in between: both ids are queued, three forwarders are still waiting, nothing is in
+   the channel — and on the same schedule the inline shape has acknowledged nothing *)
+Example C07_device_example :
+  let items := [DeviceHandler.IReport; DeviceHandler.IKeepAlive 1; DeviceHandler.IReport; DeviceHandler.IReport;
+                DeviceHandler.IKeepAlive 2] in
+  let evs := [DeviceHandler.DRead; DeviceHandler.DRead; DeviceHandler.DForward; DeviceHandler.DRead;
+              DeviceHandler.DRead; DeviceHandler.DRead] in
+  filter DeviceHandler.is_read evs = repeat DeviceHandler.DRead (length items) /\
+  DeviceHandler.acks (DeviceHandler.drun false 0 evs (DeviceHandler.dinit items)) = [1; 2] /\
+  DeviceHandler.forwarders (DeviceHandler.drun false 0 evs (DeviceHandler.dinit items)) = 3%nat /\
+  DeviceHandler.acks (DeviceHandler.drun true 0 evs (DeviceHandler.dinit items)) = [].
+Proof. cbv zeta. split; [reflexivity|]. split; [vm_compute; reflexivity|]. split; vm_compute; reflexivity. Qed.
